@@ -458,6 +458,59 @@ def run_node(work: pathlib.Path, items: Sequence[Tuple[int, str]]) -> Dict[int, 
     return {int(k): v for k, v in json.loads(r.stdout).items()}
 
 
+INDENTIONS = ["  ", "\t", ""]
+
+
+def _indent_helper(ctx: Ctx, ts: Sequence[str], with_model: bool) -> None:
+    """``common.indent_but_first_line`` (all rendered code passes through it when it is nested in a template).
+
+    Oracle (from the property text: a text cannot end a literal early): the code is cut only at LF, i.e. the LF-separated
+    lines of the result correspond one to one to the LF-separated lines of the code (a last empty one dropped) and every
+    line of the code is still there, entire, at the end of its line.  Correspondence: model ``indent`` = implementation.
+    """
+    from aas_core_codegen.common import indent_but_first_line
+
+    # the texts as "code": also between two lines and inside a literal
+    codes: List[str] = []
+    for t in ts:
+        codes.append(t)
+        if len(t) <= 2:
+            codes.append('x = [\n"' + t + '",\n"b",\n]')
+    items = [(c["indent"], c["code"]) for c in corpus(ID) if "code" in c and "indent" in c]
+    items += [(ind, code) for code in codes for ind in INDENTIONS]
+    outs: List[str] = []
+    for ind, code in items:
+        try:
+            outs.append("ok:" + enc_text(indent_but_first_line(code, ind)))
+        except BaseException as e:  # noqa
+            outs.append(crash_name(e))
+    mouts: List[str] = []
+    if with_model:
+        mouts = ["ok:" + a for a in ctx.model([f"indent {enc_text(ind)} {enc_text(code)}" for ind, code in items])]
+    for k, ((ind, code), got) in enumerate(zip(items, outs)):
+        ctx.count(("indent", ind, code), nontrivial=len(code) > 0, stream="indent_but_first_line")
+        if with_model:
+            ctx.traces_validated += 1
+            if got != mouts[k]:
+                ctx.disagree("indent_but_first_line", {"indent": ind, "code": code}, got, mouts[k])
+        if not got.startswith("ok:"):
+            ctx.fail({"indent": ind, "code": code}, f"indent_but_first_line({code!r}, {ind!r}) raised {got}", "C20:indent:crash")
+            continue
+        out = dec_text(got[3:])
+        want = code.split("\n")
+        if want[-1] == "":
+            want.pop()
+        have = out.split("\n") if want else []
+        ok = len(have) == len(want) and all(h.endswith(w) for h, w in zip(have, want)) and (want or out == "")
+        ctx.hit("indent:" + ("kept" if ok else "cut") + (":other-boundary" if any(len(w.splitlines()) > 1 for w in want) else ""))
+        if not ok:
+            ctx.fail(
+                {"indent": ind, "code": code},
+                f"indent_but_first_line({code!r}, {ind!r}) = {out!r}: the lines of the code are not kept entire (a string literal holding such a character is cut in two)",
+                "C20:indent:cuts-line",
+            )
+
+
 NODE_LITERAL_SCRIPT = r"""
 const vm = require('vm'); const fs = require('fs');
 const items = JSON.parse(fs.readFileSync(process.argv[2], 'utf8'));
@@ -594,6 +647,7 @@ def _run(ctx: Ctx, with_model: bool) -> None:
             mine = a if (a.startswith("s:") and " " not in a) else "not-one-string"
             if mine != real:
                 ctx.disagree("lex:python", {"source": src}, real, a)
+    _indent_helper(ctx, [t for t, stream in batch if stream != "random" and len(t) <= 3], with_model)
     ctx.note(f"wrappers+lexers: {time.time() - t_start:.1f}s")
     _node_string_literals(ctx, [t for t, stream in batch if len(t) <= 2 and stream != "random"])
     _compilers(ctx, compile_items)
@@ -690,6 +744,25 @@ def replay(ctx: Ctx, data: Dict[str, Any]) -> Any:
         item = inp["desc"] if "desc" in inp else {"model": inp["model"]}
         c20_files.run(ctx, [(inp.get("name", "replay"), item)], use_compilers=True)
         return {"whole-file failures": ctx.failures[before:]}
+    if "code" in inp and "indent" in inp:
+        from aas_core_codegen.common import indent_but_first_line
+
+        before = len(ctx.failures)
+        r2: Dict[str, Any] = {}
+        try:
+            r2["impl"] = indent_but_first_line(inp["code"], inp["indent"])
+        except BaseException as e:  # noqa
+            r2["impl"] = crash_name(e)
+        if ctx.driver_ok:
+            r2["model"] = dec_text(ctx.model([f"indent {enc_text(inp['indent'])} {enc_text(inp['code'])}"])[0])
+        want = inp["code"].split("\n")
+        if want[-1] == "":
+            want.pop()
+        have = r2["impl"].split("\n") if want else []
+        if not (len(have) == len(want) and all(h.endswith(w) for h, w in zip(have, want))):
+            ctx.fail({"indent": inp["indent"], "code": inp["code"]}, f"indent_but_first_line cuts the code: {r2['impl']!r}", "C20:indent:cuts-line")
+        r2["oracle"] = ctx.failures[before:]
+        return r2
     t = inp["text"].encode("utf-8").decode("unicode_escape") if False else inp["text"]
     fns = _impls()
     names = [inp["wrapper"]] if inp.get("wrapper") in WRAPPERS else WRAPPERS
